@@ -1022,6 +1022,25 @@ func (c *Client) loadServerCert(cert string) error {
 }
 
 func (c *Client) reattach() (net.Addr, error) {
+	// The protocol of a reattached plugin comes from the reattach config
+	// instead of a handshake, but it is still subject to AllowedProtocols.
+	protocol := c.config.Reattach.Protocol
+	if protocol == "" {
+		// Default the protocol to net/rpc for backwards compatibility
+		protocol = ProtocolNetRPC
+	}
+	allowed := false
+	for _, p := range c.config.AllowedProtocols {
+		if p == protocol {
+			allowed = true
+			break
+		}
+	}
+	if !allowed {
+		return nil, fmt.Errorf("Unsupported plugin protocol %q. Supported: %v",
+			protocol, c.config.AllowedProtocols)
+	}
+
 	reattachFunc := c.config.Reattach.ReattachFunc
 	// For backwards compatibility default to cmdrunner.ReattachFunc
 	if reattachFunc == nil {
